@@ -47,7 +47,9 @@ func diffRange(known string, diffs []diffmatchpatch.Diff) (start, end int) {
 
 func docDiff(id string, doc1 *indexedDocument, doc1Start, doc1End int, doc2 *indexedDocument, doc2Start, doc2End int) []diffmatchpatch.Diff {
 	chars1 := doc1.runes[doc1Start:doc1End]
-	chars2 := doc2.runes[doc2Start:doc2End]
+	// The diff library may write into the slices it is given, and doc2 is
+	// shared corpus state, so hand it a private copy.
+	chars2 := append([]rune(nil), doc2.runes[doc2Start:doc2End]...)
 
 	dmp := diffmatchpatch.New()
 	diffs := dmp.DiffMainRunes(chars1, chars2, false)
